@@ -17,8 +17,8 @@ pub static C07: CheckSpec = CheckSpec {
     id: "C07",
     level: "exploration",
     scenarios: &[Scenario { name: "table-history", weight: 1, run: c07_run }],
-    runs_quick: 40_000,
-    runs_thorough: 3_000_000,
+    runs_quick: 400_000,
+    runs_thorough: 20_000_000,
     cap_quick_s: 60,
     cap_thorough_s: 900,
     rule: "one run = one generated history (8..170 operations: insert_or_update / update_node_status / update_node / remove / entry API / iter / lookups / clock advance) on a real KBucketsTable whose key pool sits in 1-4 hot buckets (low, middle and high indices) with a per-run incoming limit 0..16 and pending timeout in {0,1ms,40ms,1s,60s,never}; every run is non-trivial (invariants are evaluated after every operation); distinct = distinct hash of the abstract operation/result log",
@@ -31,8 +31,8 @@ pub static C08: CheckSpec = CheckSpec {
     id: "C08",
     level: "exploration",
     scenarios: &[Scenario { name: "table-lookups", weight: 1, run: c08_run }],
-    runs_quick: 30_000,
-    runs_thorough: 2_000_000,
+    runs_quick: 300_000,
+    runs_thorough: 15_000_000,
     cap_quick_s: 60,
     cap_thorough_s: 900,
     rule: "same histories as C07; at lookup steps and at the end of each run closest_keys / closest_values / closest_values_predicate (3 targets: local id, stored ids, ids at a chosen log2 distance 0..256 with the low bits set, random) are compared with the sorted post-iteration full scan, and nodes_by_distances (distinct distances incl. 0, >256, u64::MAX; cap 1..20) with the stored nodes at those distances; distinct = distinct hash of the operation/result log",
@@ -45,8 +45,8 @@ pub static C16: CheckSpec = CheckSpec {
     id: "C16",
     level: "exploration",
     scenarios: &[Scenario { name: "ip-table-history", weight: 1, run: worlds::iptable::run }],
-    runs_quick: 6_000,
-    runs_thorough: 600_000,
+    runs_quick: 60_000,
+    runs_thorough: 6_000_000,
     cap_quick_s: 60,
     cap_thorough_s: 900,
     rule: "one run = one generated history (20..320 operations: insert_or_update, record updates that may move a node to another /24, status updates, removals, Entry API, iteration, clock advances around the 60 s pending timeout) on the routing table of a Discv5 built with ip_limit (real IpTableFilter/IpBucketFilter), over 30..150 real signed records drawn from 1-3 /24 subnets plus address-less and IPv6-only fillers, with an optional fill burst so that full buckets with pending candidates occur; per-bucket and per-table /24 counts are checked after every operation; distinct = distinct hash of the operation/result log",
@@ -64,8 +64,8 @@ pub static C09: CheckSpec = CheckSpec {
         Scenario { name: "query-direct", weight: 2, run: worlds::query::run_direct },
         Scenario { name: "query-pool", weight: 1, run: worlds::query::run_pool },
     ],
-    runs_quick: 60_000,
-    runs_thorough: 6_000_000,
+    runs_quick: 600_000,
+    runs_thorough: 60_000_000,
     cap_quick_s: 60,
     cap_thorough_s: 900,
     rule: "one run = one generated event order (poll / success with 0..6 returned peers that are new, duplicate, closer, farther or the target itself / failure / silence past the peer timeout / late success / answers for never-asked or unknown peers) against a real FindNodeQuery or PredicateQuery (direct) or a real QueryPool with 1-3 concurrent queries and a query timeout (pool), parallelism 1..5, k 0..20, followed by a fault-free drain phase with a step bound (liveness); non-trivial = at least one fault-like event fired (failure, late success, silence, answer for a non-outstanding peer); distinct = distinct hash of the event log",
@@ -81,8 +81,8 @@ pub static C10: CheckSpec = CheckSpec {
         Scenario { name: "query-direct", weight: 2, run: worlds::query::run_direct },
         Scenario { name: "query-pool", weight: 1, run: worlds::query::run_pool },
     ],
-    runs_quick: 60_000,
-    runs_thorough: 6_000_000,
+    runs_quick: 600_000,
+    runs_thorough: 60_000_000,
     cap_quick_s: 60,
     cap_thorough_s: 900,
     rule: "same runs as C09 (different run indices are not shared: C10 draws its own); the final result of every query (into_result after Finished, or at pool Timeout) is checked: at most k distinct ids, strictly increasing XOR distance to the target (raw bytes), each asked and answered with a success, predicate results reported with a matching record or flagged initially, and if fewer than k without timeout every certainly-learned candidate was asked",
@@ -98,8 +98,8 @@ pub static C18: CheckSpec = CheckSpec {
         Scenario { name: "filter-adversarial", weight: 2, run: worlds::recvfilter::run },
         Scenario { name: "filter-conforming", weight: 1, run: worlds::recvfilter::run },
     ],
-    runs_quick: 40_000,
-    runs_thorough: 4_000_000,
+    runs_quick: 400_000,
+    runs_thorough: 40_000_000,
     cap_quick_s: 60,
     cap_thorough_s: 900,
     rule: "one run = one generated arrival schedule (20..420 steps: datagrams from 1-6 IPs x 1-8 node ids, bursts, lulls of 0..31 s, prune ticks, ban/permit list edits) executed twice against a fresh real Filter (with and without the prune ticks: metamorphic pair), quotas burst in {1,2,4,5,8,10} per {0.1,0.5,1,5} s for total / per-IP / per-node; 'conforming' runs generate only traffic that stays within every quota (initial burst, then paced at >= period/burst per key and in total) and demand that nothing is refused; non-trivial = a prune tick occurred or at least one datagram was refused; distinct = distinct hash of the arrival/decision log",
@@ -125,7 +125,7 @@ pub static C04: CheckSpec = CheckSpec {
     id: "C04",
     level: "exploration",
     scenarios: &[Scenario { name: "handler-traffic", weight: 1, run: c04_run }],
-    runs_quick: 2_500,
+    runs_quick: 40_000,
     runs_thorough: 150_000,
     cap_quick_s: 75,
     cap_thorough_s: 1200,
@@ -135,11 +135,28 @@ pub static C04: CheckSpec = CheckSpec {
     assumptions: &["liveness bound B = 4*(retries+1)*request_timeout + 2 s + 3 s (max application delay), calibrated on the fault-free configuration (1 run in 6)", "a request submitted at a handler that is then restarted is lost with it (no durable state) and is exempt from the liveness clause"],
 };
 
+pub static C15: CheckSpec = CheckSpec {
+    id: "C15",
+    level: "exploration",
+    scenarios: &[
+        Scenario { name: "session-ttl", weight: 2, run: worlds::h_session::run_ttl },
+        Scenario { name: "session-capacity", weight: 1, run: worlds::h_session::run_capacity },
+    ],
+    runs_quick: 30_000,
+    runs_thorough: 900_000,
+    cap_quick_s: 75,
+    cap_thorough_s: 1200,
+    rule: "session-ttl: a victim with session_timeout in {2,5,30,120} s and 1-3 real peers; 4-17 sequential exchanges in either direction separated by idle gaps of 50 ms, timeout/2, timeout-0.7 s, timeout+1 ms, timeout+0.7 s, 2*timeout; every datagram the victim encrypts and every message it accepts is attributed to one of its sessions (key log) and that session's idle time must not exceed the timeout. session-capacity: capacity 1-5, 2-7 real peers, sequential exchanges in tape-chosen order and direction, then the victim pings every peer most-recently-used first: ranks below the capacity must be answered on the existing session, ranks at or above it must start with a random packet; non-trivial = an idle gap longer than the timeout occurred / more peers than capacity; distinct = distinct event-log hash",
+    components_real: REAL_HANDLER,
+    components_stub: STUB_HANDLER,
+    assumptions: &["'use' of a session = the victim encrypts a datagram under its keys or accepts (delivers) a message decrypted under them; creation counts as a use", "capacity runs keep exchanges sequential so that recency is unambiguous whatever else the implementation counts as a touch"],
+};
+
 pub static C19: CheckSpec = CheckSpec {
     id: "C19",
     level: "exploration",
     scenarios: &[Scenario { name: "handler-traffic", weight: 1, run: c19_run }],
-    runs_quick: 2_500,
+    runs_quick: 40_000,
     runs_thorough: 150_000,
     cap_quick_s: 75,
     cap_thorough_s: 1200,
@@ -153,7 +170,7 @@ pub static C13: CheckSpec = CheckSpec {
     id: "C13",
     level: "exploration",
     scenarios: &[Scenario { name: "handler-traffic", weight: 1, run: c13_run }],
-    runs_quick: 2_500,
+    runs_quick: 40_000,
     runs_thorough: 150_000,
     cap_quick_s: 75,
     cap_thorough_s: 1200,
@@ -211,7 +228,7 @@ pub static C03: CheckSpec = CheckSpec {
     assumptions: &["a challenge's expiry is request_timeout after the WHOAREYOU or after the last delivered handshake that may have re-armed it (invalid-signature re-insert)", "the oracle trusts the crate's id-signature verification to attribute an accepted handshake to the challenge it answers"],
 };
 
-pub static ALL: &[&CheckSpec] = &[&C01, &C02, &C03, &C04, &C07, &C08, &C09, &C10, &C13, &C16, &C18, &C19];
+pub static ALL: &[&CheckSpec] = &[&C01, &C02, &C03, &C04, &C07, &C08, &C09, &C10, &C13, &C15, &C16, &C18, &C19];
 
 pub fn lookup(id: &str) -> Option<&'static CheckSpec> {
     ALL.iter().copied().find(|c| c.id.eq_ignore_ascii_case(id))
